@@ -943,6 +943,38 @@ def check_platform(w, label, tier):
                     neval += 1
                     part.outcome(obs)
 
+    # resolution is a function of (platform, schema): after everything this
+    # session has resolved and prepared so far, each schema still resolves to
+    # what a brand-new session gives, whichever schema was asked for before
+    fresh = dict()
+    for schema in schemas:
+        try:
+            fresh[schema] = ru.as_dict(World._make_session(w)
+                                       .get_resource_config(label, schema))
+        except Exception:
+            pass
+    for first in schemas:
+        for second in schemas:
+            if second not in fresh or first not in fresh:
+                continue
+            neval += 1
+            try:
+                w.session.get_resource_config(label, first)
+                got = ru.as_dict(w.session.get_resource_config(label, second))
+            except Exception as e:
+                got = repr(e)
+            if got != fresh[second]:
+                diff = sorted(k for k in set(got) | set(fresh[second])
+                              if got.get(k) != fresh[second].get(k)) \
+                       if isinstance(got, dict) else got
+                part.violation('resolution-depends-on-history|%s|%s:%s'
+                               % (SITE_GRC, label, ','.join(map(str, diff))
+                                  if isinstance(diff, list) else 'raises'),
+                               {'what': '%s: schema %r resolved after %r '
+                                        'differs from a fresh session in %s'
+                                        % (label, second, first, diff)},
+                               {'kind': 'resolve', 'label': label,
+                                'schema': second})
     part.cover(evaluations=neval, pairs=npair, platforms=1)
 
     return {'part' : part.dump(),
